@@ -256,6 +256,40 @@ class C08(Check):
                     intra = SH[shell_of[ln]][0] == 'M' and [k for k, v in n['lines'].items() if v == ln and re.fullmatch(r'M\dM\d', k)]
                     viol.append(dict(key='kissel_pe.c:337 line_mappings excludes the intra-M lines' if intra else l, got=o,
                                      expected='value %r = shell value x RadRate' % (sv * rr), what='Kissel line cross section (%s)' % l))
+        # grouped lines (KA, KB, LA, LB macros 0..3): the sum over the member lines of shell value x radiative rate, in the SAME
+        # variant and unit; members from the macro NAMES (KL*, K[MNOP]*, L3M4/L3M5, the Siegbahn L-beta aliases + L3N6, L3N7)
+        L = n['lines']
+        members = {L['KA']: [v for k, v in L.items() if re.fullmatch(r'KL\d', k)],
+                   L['KB']: [v for k, v in L.items() if re.fullmatch(r'K[MNOP]\d', k)],
+                   L['LA']: [L['L3M4'], L['L3M5']],
+                   L['LB']: [L[k] for k in ('LB1', 'LB2', 'LB3', 'LB4', 'LB5', 'LB6', 'LB7', 'LB9', 'LB10', 'LB15', 'LB17', 'L3N6', 'L3N7')]}
+        for l, o in zip(kl, ck):
+            t = l.split()
+            if not re.fullmatch(r'CS_FluorLine_Kissel(?:_(\w+))?', t[0]): continue
+            ln = int(t[2])
+            if ln not in members: continue
+            tot = 0.0; ok = True
+            if ln in (L['KA'], L['KB'], L['LA']):
+                # one shell: shell value x the GROUP's radiative rate (C10: K-alpha / L-alpha rate = sum of the members, K-beta = complement to one)
+                sv = shellval.get((t[0], t[1], 0 if ln != L['LA'] else 3, t[3]))
+                if sv == 'bad': continue
+                tot = (sv or 0.0) * g('RadRate', int(t[1]), ln)
+                mem = []
+            else: mem = sorted(set(members[ln]))
+            for mv in mem:
+                if mv not in shell_of: ok = False; break
+                sv = shellval.get((t[0], t[1], shell_of[mv], t[3]))
+                if sv == 'bad': ok = False; break
+                tot += (sv or 0.0) * g('RadRate', int(t[1]), mv)
+            if not ok: continue
+            cnt += 1
+            got = val(o)
+            if tot > 0:
+                nontriv += 1
+                if got in (None, 'bad') or not core.close(got, tot, 1e-9):
+                    viol.append(dict(key=l, got=o, expected='value %r = sum over the member lines of shell value x RadRate (same variant)' % tot, what='Kissel GROUP line cross section'))
+            elif got not in (None,):
+                viol.append(dict(key=l, got=o, expected='fails (no member line has a cross section)', what='Kissel GROUP line cross section'))
         seen = set(); out = []
         for v in viol:
             if v['key'] in seen: continue
